@@ -516,6 +516,7 @@ theorem runMemo_spec {p : Prog} (hp : MemoOK p) {f : Nat} (hu : UpdOK p (upd p f
   generalize startRun s0 m = s4 at t h4 loc4 fr04
   obtain ⟨L, U, ep, hrep⟩ := evalE_spec hu (fun s _ _ => s) hmf (bodyOf p m) s4 h4 loc4
     (by rw [hbo]; exact hbody.1) (by rw [hbo]; exact hbody.2.1) (by rw [hbo]; exact hbody.2.2)
+    (fun _ hy => hy)
   generalize evalE (readNode (upd p f)) (fun s _ _ => s) m (bodyOf p m) s4 = r at ep hrep
   obtain ⟨s5, v⟩ := r
   simp only at ep hrep ⊢
@@ -583,7 +584,7 @@ theorem runMemo_spec {p : Prog} (hp : MemoOK p) {f : Nat} (hu : UpdOK p (upd p f
   have h8 := finish_inv ep.inv ep.loc fr hrep' hsaved hH
   have fr58 := finish_frame ep.inv ep.loc fr
   have hver5 : (s5.get m).ver = (s0.get m).ver := ep.ver.trans (t.ver m)
-  refine ⟨h8, fr05.trans fr58, fr.obs, ?_, fun _ => fr.st_m, fr.subs_m.trans hsubs5, ?_, ?_, ?_, ?_⟩
+  refine ⟨h8, fr05.trans fr58, fr.obs, ?_, fun _ => fr.st_m, fr.subs_m.trans hsubs5, ?_, ?_, ?_, ?_, ?_⟩
   · intro i
     by_cases hi : i = m
     · subst hi; rw [hr]; exact fr.running_m
@@ -652,6 +653,16 @@ theorem runMemo_spec {p : Prog} (hp : MemoOK p) {f : Nat} (hu : UpdOK p (upd p f
         rcases (fr.go i him).2 with h'' | h''
         · rw [h'']; exact h'.2.1
         · exact absurd h'.2.1 h''.2.1
+  · -- recorded sources are statically read
+    intro hs0
+    have hs4 : SrcStatic p s4 := hs0.mono (fun w y hy => by
+      by_cases hw : w = m
+      · subst hw; rw [t.sources_m] at hy; cases hy
+      · rw [t.sources w hw] at hy; exact hy)
+    exact (ep.ss hs4).mono (fun w y hy => by
+      by_cases hw : w = m
+      · subst hw; rw [fr.sources_m] at hy; exact hy
+      · rw [(Node.core_fields (fr.go w hw).1).2.2.1] at hy; exact hy)
 
 /-! ## the `any` loop of `needs_update` -/
 
@@ -665,6 +676,7 @@ structure AnyPost (p : Prog) (s : State) (m : Nat) (l : List Nat) (r : State × 
   just : r.2 = true → (r.1.get m).runs ≠ 0 → ∃ e ∈ (r.1.get m).seen, (r.1.get e.1).ver ≠ e.2.2
   valCh : ValCh s r.1
   runRel : RunRel s r.1
+  ss : SrcStatic p s → SrcStatic p r.1
 
 theorem anySrc_spec {p : Prog} {u : State → Nat → State × Bool} {f : Nat} (hu : UpdOK p u f)
     {m : Nat} (hmf : m ≤ f) : ∀ (l : List Nat) (s : State), InvR p s → (s.get m).kind = .memo →
@@ -676,7 +688,7 @@ theorem anySrc_spec {p : Prog} {u : State → Nat → State × Bool} {f : Nat} (
   | nil =>
     intro s h _ _ _ hnd _
     exact ⟨h, Frame.refl s m, rfl, fun _ => rfl, fun _ => ⟨fun _ hx => (by cases hx), hnd⟩,
-      fun hc => (by cases hc), ValCh.of_val_eq (fun _ => rfl), RunRel.of_eq (fun _ => rfl)⟩
+      fun hc => (by cases hc), ValCh.of_val_eq (fun _ => rfl), RunRel.of_eq (fun _ => rfl), fun h => h⟩
   | cons x l ih =>
     intro s h hk hr hlow hnd hl
     have hxs : x ∈ (s.get m).sources := hl x List.mem_cons_self
@@ -700,7 +712,7 @@ theorem anySrc_spec {p : Prog} {u : State → Nat → State × Bool} {f : Nat} (
     by_cases hc : (ch || (true && (s1.get m).st == .dirty)) = true
     · rw [if_pos hc]
       refine ⟨hp.inv, fr1, hp.obs, hp.running, fun h' => (by cases h'), fun _ hruns => ?_, hp.valCh,
-        hp.runRel⟩
+        hp.runRel, hp.ss⟩
       simp only at hruns ⊢
       by_cases hch : ch = true
       · have hv : (s.get x).ver < (s1.get x).ver := hp.ver hch
@@ -730,7 +742,8 @@ theorem anySrc_spec {p : Prog} {u : State → Nat → State × Bool} {f : Nat} (
       refine ⟨ih'.inv, fr1.trans ih'.frame, ih'.obs.trans hp.obs,
         fun i => (ih'.running i).trans (hp.running i), fun h2 => ?_, ih'.just,
         hp.valCh.trans ih'.valCh fr1 ih'.frame hp.obs,
-        hp.runRel.trans ih'.runRel (fun i hi => (fr1.clean i hi).1) (fun i hi => (ih'.frame.clean i hi).1)⟩
+        hp.runRel.trans ih'.runRel (fun i hi => (fr1.clean i hi).1) (fun i hi => (ih'.frame.clean i hi).1),
+        fun h => ih'.ss (hp.ss h)⟩
       have a2 := ih'.allClean h2
       refine ⟨fun y hy hky => ?_, a2.2⟩
       rcases List.mem_cons.1 hy with rfl | hy
@@ -818,7 +831,8 @@ theorem restamp_spec {p : Prog} {s : State} {m : Nat} (h : InvR p s) (hk : (s.ge
     · rw [go i hi]
   refine ⟨hinv, ?_, hobs, fun i => (cf i).2.2.2.2.2.1, fun _ => stm, (cf m).2.2.2.1, fun hc => (by cases hc),
     fun o _ _ hd => .inl (by rw [← dE]; exact hd), ValCh.of_val_eq (fun i => (cf i).2.1),
-    RunRel.of_eq (fun i => (cf i).2.2.2.2.2.2.2.2)⟩
+    RunRel.of_eq (fun i => (cf i).2.2.2.2.2.2.2.2),
+    fun hs => hs.mono (fun w y hy => by rw [(cf w).2.2.1] at hy; exact hy)⟩
   refine ⟨hlen, fun i => (cf i).1, ?_, fun i => by rw [(cf i).2.2.2.2.2.2.2.1]; exact Nat.le_refl _,
     fun i _ => (cf i).2.2.2.2.2.2.2.1, ?_, fun hl i => (by rw [hlog]; exact hl i), fun i _ => hcore i,
     fun i _ hd => .inl (by rw [← dE]; exact hd), ?_, LogExt.of_eq hlog,
@@ -902,7 +916,8 @@ theorem upd_step {p : Prog} (hp : MemoOK p) {f : Nat} (hu : UpdOK p (upd p f) f)
           fun i => (post.running i).trans (ap.running i), fun _ => post.clean hk1,
           post.subs.trans cf.2.2.2.1, fun hc => (by rw [← cf.2.2.2.2.2.2.2.1]; exact post.ver hc),
           hobsD r2.1 post.frame post.obsD, ap.valCh.trans post.valCh fr1 post.frame ap.obs,
-          ap.runRel.trans post.runRel (fun i hi => (fr1.clean i hi).1) (fun i hi => (post.frame.clean i hi).1)⟩
+          ap.runRel.trans post.runRel (fun i hi => (fr1.clean i hi).1) (fun i hi => (post.frame.clean i hi).1),
+          fun h => post.ss (ap.ss h)⟩
       · rw [if_neg hn]
         have hn' : need = false := by simpa using hn
         have ac := ap.allClean hn'
@@ -914,7 +929,8 @@ theorem upd_step {p : Prog} (hp : MemoOK p) {f : Nat} (hu : UpdOK p (upd p f) f)
           fun i => (post.running i).trans (ap.running i), fun _ => post.clean hk1,
           post.subs.trans cf.2.2.2.1, fun hc => (by cases hc), hobsD s2 post.frame post.obsD,
           ap.valCh.trans post.valCh fr1 post.frame ap.obs,
-          ap.runRel.trans post.runRel (fun i hi => (fr1.clean i hi).1) (fun i hi => (post.frame.clean i hi).1)⟩
+          ap.runRel.trans post.runRel (fun i hi => (fr1.clean i hi).1) (fun i hi => (post.frame.clean i hi).1),
+          fun h => post.ss (ap.ss h)⟩
   · have hk' : ((s.get m).kind != .memo) = true := by
       cases hkk : (s.get m).kind <;> simp_all
     rw [hk']
